@@ -14,6 +14,7 @@ import (
 	"sort"
 	"strconv"
 	"strings"
+	"time"
 
 	"github.com/Eyevinn/dash-mpd/mpd"
 	"github.com/Eyevinn/mp4ff/mp4"
@@ -327,4 +328,76 @@ func VerifConsolidate(reps []VerifRepDur) (loopDurMS int, refID string, err erro
 		return 0, "", err
 	}
 	return a.LoopDurMS, a.refRep.ID, nil
+}
+
+// VerifChunkSrc drives the real chunked-transfer cmafSource with a buffer of bufCap bytes: the writes are issued from a
+// goroutine the way sendMediaSegment / writeSegment do (one Write per chunk, then the final -1), the reads from the
+// caller with client buffers of the given sizes, up to the first io.EOF.  hung reports a Read that did not return.
+func VerifChunkSrc(bufCap int, writes [][]byte, reads []int) (outs [][]byte, eof bool, hung bool) {
+	nrBytesCh := make(chan int)
+	writeMoreCh := make(chan struct{})
+	stop := make(chan struct{})
+	src := newCmafSource(nrBytesCh, writeMoreCh, slog.Default(), "verif://csrc", "video/mp4", "", "", true)
+	src.buf = make([]byte, bufCap)
+	go func() { // the writer: sendMediaSegment after go startReadAndSendChunked
+		for _, w := range writes {
+			if _, err := src.Write(w); err != nil {
+				return
+			}
+		}
+		select {
+		case <-writeMoreCh: // capture final message
+		case <-stop:
+			return
+		}
+		select {
+		case nrBytesCh <- -1:
+		case <-stop:
+		}
+	}()
+	type rd struct {
+		b   []byte
+		err error
+	}
+	res := make(chan rd)
+	go func() { // the reader: http.Client copying the request body
+		select {
+		case writeMoreCh <- struct{}{}: // startReadAndSendChunked: get the writer going
+		case <-stop:
+			return
+		}
+		for _, k := range reads {
+			p := make([]byte, k)
+			n, err := src.Read(p)
+			select {
+			case res <- rd{p[:n], err}:
+			case <-stop:
+				return
+			}
+			if err != nil {
+				return
+			}
+		}
+		close(res)
+		for { // not part of the script: let the writer finish
+			if _, err := src.Read(make([]byte, 4096)); err != nil {
+				return
+			}
+		}
+	}()
+	defer close(stop)
+	for {
+		select {
+		case r, ok := <-res:
+			if !ok {
+				return outs, false, false
+			}
+			if r.err == io.EOF {
+				return outs, true, false
+			}
+			outs = append(outs, r.b)
+		case <-time.After(3 * time.Second):
+			return outs, false, true
+		}
+	}
 }
